@@ -14,7 +14,9 @@ EXTENDS Integers, Sequences, FiniteSets, TLC
 
 CONSTANTS RSize, MaxLen, WithIf,
           NoAssign,   \* TRUE: only ++ / -- / IOWrite / late declarations (no `=` anywhere)
-          Repeat      \* the complete program is the body of an endless loop: further iterations executed here
+          Repeat,     \* the complete program is the body of an endless loop: further iterations executed here
+          WithCalls   \* TRUE: expressions may call the functions twice(x) = x + x and addmul(a, b) = (a + b) * b
+                      \* (addmul keeps its sum in a local variable that is not a register)
 
 TopVars == {"a", "b", "c"}          \* declared at the top of main
 LateVars == {"d", "e"}              \* declared by a statement in the middle of the program
@@ -27,13 +29,19 @@ VARIABLES prog, env, outs, declared, iter
 vars == <<prog, env, outs, declared, iter>>
 
 Atom == [k : {"const"}, n : Consts] \cup [k : {"var"}, v : Vars]
+Zero == [k |-> "const", n |-> 0]
 Expr == Atom \cup [k : {"add", "mul"}, l : Atom, r : Atom]
+             \cup (IF WithCalls THEN [k : {"addmul"}, l : Atom, r : Atom] \cup [k : {"twice"}, l : Atom, r : {Zero}] ELSE {})
 
 Eval(e, en) ==
   CASE e.k = "const" -> e.n
     [] e.k = "var" -> en[e.v]
     [] e.k = "add" -> ((IF e.l.k = "const" THEN e.l.n ELSE en[e.l.v]) + (IF e.r.k = "const" THEN e.r.n ELSE en[e.r.v])) % Mod
     [] e.k = "mul" -> ((IF e.l.k = "const" THEN e.l.n ELSE en[e.l.v]) * (IF e.r.k = "const" THEN e.r.n ELSE en[e.r.v])) % Mod
+    [] e.k = "twice" -> (2 * (IF e.l.k = "const" THEN e.l.n ELSE en[e.l.v])) % Mod
+    [] e.k = "addmul" -> LET a == IF e.l.k = "const" THEN e.l.n ELSE en[e.l.v]
+                             b == IF e.r.k = "const" THEN e.r.n ELSE en[e.r.v]
+                         IN  (((a + b) % Mod) * b) % Mod
 
 Simple == [k : {"set"}, v : Vars, e : Expr] \cup [k : {"inc", "dec"}, v : Vars] \cup [k : {"out"}, o : Outs, e : Expr]
 \* v, w = e, f : both right-hand sides are evaluated before either variable is assigned
@@ -58,7 +66,7 @@ Init == prog = <<>> /\ env = [v \in Vars |-> 0] /\ outs = <<>> /\ declared = Top
 
 \* the variables a statement mentions
 AtomVars(e) == IF e.k = "var" THEN {e.v} ELSE {}
-ExprVars(e) == IF e.k \in {"add", "mul"} THEN AtomVars(e.l) \cup AtomVars(e.r) ELSE AtomVars(e)
+ExprVars(e) == IF e.k \in {"add", "mul", "addmul", "twice"} THEN AtomVars(e.l) \cup AtomVars(e.r) ELSE AtomVars(e)
 StmtVars(s) == CASE s.k = "set" -> {s.v} \cup ExprVars(s.e) [] s.k \in {"inc", "dec"} -> {s.v} [] s.k = "out" -> ExprVars(s.e)
                  [] s.k = "tuple" -> {s.v, s.w} \cup ExprVars(s.e) \cup ExprVars(s.f)
                  [] s.k = "ifeq" -> AtomVars(s.l) \cup AtomVars(s.r) \cup (IF s.t.k = "out" THEN ExprVars(s.t.e) ELSE {s.t.v})
